@@ -248,6 +248,8 @@ def gen_sigtag(rng: random.Random):
                 lines.append([rng.choice(BF_CHOICES[:6]), [rng.choice(stable) for _ in range(rng.randint(2, 4))], False, ["named", "PHSP", None]])
             blocks.append(["decay", src, lines])
             blocks.append(["cdecay", other])
+    if not sides:
+        return gen_sigtag(rng)
     mothers = []
     for (ma, mb) in rng.sample([("B-", "B+"), ("B0", "anti-B0"), ("B_s0", "anti-B_s0")], rng.randint(1, 2)):
         x, y = f"{ma}sig", f"{mb}sig"
